@@ -52,6 +52,40 @@ def _member_call_ok(call: ast.AST, member_names, fi: FuncInfo) -> List[str]:
     return probs
 
 
+def _isinstance_guards(fn: ast.AST, node: ast.AST, operand: str) -> set:
+    """classes C such that `node` is evaluated only when isinstance(operand, C) holds (IfExp body / If body, conjunctions)"""
+    out = set()
+
+    def classes_of(test) -> set:
+        cs = set()
+        if isinstance(test, ast.BoolOp) and isinstance(test.op, ast.And):
+            for v in test.values:
+                cs |= classes_of(v)
+        elif isinstance(test, ast.Call) and isinstance(test.func, ast.Name) and test.func.id == "isinstance" and len(test.args) == 2 \
+                and isinstance(test.args[0], ast.Name) and test.args[0].id == operand:
+            c = test.args[1]
+            for e in (c.elts if isinstance(c, ast.Tuple) else [c]):
+                cs.add(src(e).split(".")[-1])
+            if isinstance(c, ast.Tuple) and len(c.elts) > 1:
+                cs = {"|".join(sorted(cs))}  # a union test guarantees neither class
+        return cs
+
+    def contains(tree, target) -> bool:
+        return any(x is target for x in ast.walk(tree))
+
+    def rec(n):
+        if isinstance(n, ast.IfExp) and contains(n.body, node):
+            out.update(classes_of(n.test))
+        if isinstance(n, ast.If) and any(contains(st, node) for st in n.body):
+            out.update(classes_of(n.test))
+        for ch in ast.iter_child_nodes(n):
+            if contains(ch, node):
+                rec(ch)
+
+    rec(fn)
+    return out
+
+
 def run(idx: ProgramIndex, rep: Report, tier: str):
     rep.explanation = (
         "Only the composition clause of C05 is decided: the forward methods of AdditiveKernel, ProductKernel, ScaleKernel and LCMKernel "
@@ -61,6 +95,7 @@ def run(idx: ProgramIndex, rep: Report, tier: str):
         "covariance formulae of the individual kernels are equalities of real-valued functions and are not decidable from code shape.")
     rep.rule("C05-1", "Additive/Product kernels combine every member kernel, evaluated through __call__ on the same arguments, with + / *")
     rep.rule("C05-2", "ScaleKernel = base kernel value x constrained outputscale")
+    rep.rule("C05-5", "k1 + k2 / k1 * k2 flatten an operand's members into the new composite only when the operand is a composite of the same kind")
     rep.rule("C05-4", "no in-place aliasing hazard in kernel forward code and the distance helpers (storage/version domain)")
     rep.rule("C05-3", "LCMKernel = sum over all member multitask kernels")
     K = "gpytorch.kernels.kernel"
@@ -147,6 +182,21 @@ def run(idx: ProgramIndex, rep: Report, tier: str):
             elif first_self > first_other:
                 rep.observe("C05-1", "%s:Kernel.%s[order]" % (K, meth), fi.where, "operands are passed as (other, self): values equal by commutativity, order of kernels differs")
         rep.add("C05-1", "%s:Kernel.%s" % (K, meth), fi.where, not probs and bool(rets), "both operands flow into %s(...)" % comp if not probs else "; ".join(probs), {})
+        # C05-5: splicing the members of an operand into the new composite is sound only if the operand is a composite of the
+        # same kind (associativity of + resp. *): every use of `<operand>.kernels` must sit under isinstance(<operand>, comp)
+        splices = 0
+        fprobs = []
+        for n in ast.walk(fi.node):
+            if isinstance(n, ast.Attribute) and n.attr == "kernels" and isinstance(n.value, ast.Name) and n.value.id in (sn, on):
+                splices += 1
+                opnd = n.value.id
+                guards = _isinstance_guards(fi.node, n, opnd)
+                if comp not in guards:
+                    fprobs.append("`%s.kernels` is spliced into %s(...) %s: the members of a %s become %s of the result" % (
+                        opnd, comp, ("under isinstance(%s, %s)" % (opnd, "/".join(sorted(guards)))) if guards else "without a test of the operand's class",
+                        "/".join(sorted(guards)) or "composite of unknown kind", "summands" if comp == "AdditiveKernel" else "factors"))
+        if splices:
+            rep.add("C05-5", "%s:Kernel.%s[flattening]" % (K, meth), fi.where, not fprobs, "%d splice(s) of operand members, each under isinstance(operand, %s)" % (splices, comp) if not fprobs else "; ".join(fprobs), {"splices": splices})
     # ScaleKernel
     S = idx.find_class("ScaleKernel")
     fi = idx.method(S, "forward", own=True)
